@@ -1,6 +1,7 @@
 import Tetro.Model.Apu
 import Tetro.Spec.Apu
 import Tetro.Lemmas.ApuStatus
+import Tetro.Lemmas.ApuClk
 /-
 C19 – channel status bits and length counters behave as on a DMG.
 
@@ -465,5 +466,88 @@ example :
     trigger in the first half: the code clocks the counter (63 left), the documentation reads as 64 -/
 theorem c19_full_retrigger_code :
     ((sqWriteNRx1 true { dacEnabled := true, lengthEnable := true } 0x00).writeNRx4 1 0xC0).length = 63 := by decide
+
+
+/-! ### length clocks happen at 256 Hz -/
+
+/-- in this clock `tickClock` clocks the four length counters -/
+def LenClockNow (a : Apu) : Prop := a.ticks % 8192 = 0 ∧ a.frameSeqTicks % 2 = 0
+
+/-- position inside the 16384-clock length period; 0 = a length clock happens in this clock -/
+def lenPhase (a : Apu) : Nat :=
+  ((if a.ticks % 8192 = 0 then a.frameSeqTicks else a.frameSeqTicks + 1) % 2) * 8192 + a.ticks % 8192
+
+private theorem phase_arith (t f : Nat) (h : f < 512) :
+    ((if (t + 1) % 18446744073709551616 % 8192 = 0 then
+          (if t % 8192 = 0 then (if (f + 1) % 18446744073709551616 ≥ 512 then 0 else (f + 1) % 18446744073709551616) else f)
+        else (if t % 8192 = 0 then (if (f + 1) % 18446744073709551616 ≥ 512 then 0 else (f + 1) % 18446744073709551616) else f) + 1) % 2) * 8192
+      + (t + 1) % 18446744073709551616 % 8192
+      = (((if t % 8192 = 0 then f else f + 1) % 2) * 8192 + t % 8192 + 1) % 16384 ∧
+    (if t % 8192 = 0 then (if (f + 1) % 18446744073709551616 ≥ 512 then 0 else (f + 1) % 18446744073709551616) else f) < 512 := by
+  have ht : (t + 1) % 18446744073709551616 % 8192 = (t + 1) % 8192 := by omega
+  have hf : (f + 1) % 18446744073709551616 = f + 1 := by omega
+  rw [ht, hf]
+  by_cases c : t % 8192 = 0
+  · have c1 : ¬ (t + 1) % 8192 = 0 := by omega
+    simp only [c, c1, if_true, if_false]
+    by_cases w : f + 1 ≥ 512
+    · simp only [w, if_true]; omega
+    · simp only [w, if_false]; omega
+  · simp only [c, if_false]
+    by_cases c1 : (t + 1) % 8192 = 0
+    · simp only [c1, if_true]; omega
+    · simp only [c1, if_false]; omega
+
+private theorem phase_step (a : Apu) (h : a.frameSeqTicks < 512) :
+    lenPhase a.tickClock = (lenPhase a + 1) % 16384 ∧ a.tickClock.frameSeqTicks < 512 := by
+  have e := clk_tickClock a
+  simp only [clk, Prod.mk.injEq] at e
+  obtain ⟨e1, e2⟩ := e
+  unfold lenPhase
+  rw [e1, e2]
+  exact phase_arith a.ticks a.frameSeqTicks h
+
+private theorem phase_clocks (i : Nat) : ∀ (a : Apu), a.frameSeqTicks < 512 →
+    lenPhase (clocks i a) = (lenPhase a + i) % 16384 ∧ (clocks i a).frameSeqTicks < 512 := by
+  induction i with
+  | zero =>
+    intro a h
+    refine ⟨?_, h⟩
+    show lenPhase a = (lenPhase a + 0) % 16384
+    have : lenPhase a < 16384 := by unfold lenPhase; split <;> omega
+    omega
+  | succ j ih =>
+    intro a h
+    obtain ⟨p1, p2⟩ := phase_step a h
+    obtain ⟨q1, q2⟩ := ih a.tickClock p2
+    refine ⟨?_, q2⟩
+    show lenPhase (clocks j a.tickClock) = _
+    rw [q1, p1]; omega
+
+/-- **C19 (256 Hz).**  From any state whose step counter is in range (always, after New or a
+    power-on): the length counters are clocked in the i-th following clock exactly when
+    (phase + i) is a multiple of 16384 – i.e. once every 16384 clocks (256 Hz), for ever, also across
+    the wrap of the step counter at 512 and of the 64-bit clock counter. -/
+theorem c19_256hz (a : Apu) (h : a.frameSeqTicks < 512) (i : Nat) :
+    LenClockNow (clocks i a) ↔ (lenPhase a + i) % 16384 = 0 := by
+  obtain ⟨p, _⟩ := phase_clocks i a h
+  rw [← p]
+  unfold LenClockNow lenPhase
+  constructor
+  · intro ⟨h1, h2⟩; rw [if_pos h1]; omega
+  · intro hz; split at hz <;> omega
+
+/-- … and `LenClockNow` is exactly when a clock applies `tickLength` to the length fields of all four
+    channels; in every other clock they are untouched (timers, envelopes and the sweep never write
+    them). -/
+theorem c19_length_clocked_at (a : Apu) :
+    (LenClockNow a → a.tickClock.lens = a.lensClocked) ∧ (¬ LenClockNow a → a.tickClock.lens = a.lens) := by
+  have e := lens_tickClock a
+  unfold LenClockNow
+  exact ⟨fun h => by rw [e, if_pos h], fun h => by rw [e, if_neg h]⟩
+
+/-- after New the first length clock happens in the 8192nd clock (clock counter = 8192, step 0), the
+    next ones every 16384 clocks -/
+example : lenPhase (Apu.new true true) = 8193 ∧ (Apu.new true true).frameSeqTicks < 512 ∧ (8193 + 8191) % 16384 = 0 := by decide
 
 end Tetro.C19
